@@ -37,6 +37,14 @@ type c03File struct {
 	Path  string    `json:"path"`
 	Rules []c03Rule `json:"rules"`
 	FileC []string  `json:"file_comments,omitempty"`
+	Broken bool     `json:"has_invalid_rule,omitempty"`
+}
+
+// the file-level comments as the set they are: the order of `# pint file/disable` lines is not content
+func (f c03File) fileCKey() string {
+	c := append([]string{}, f.FileC...)
+	sort.Strings(c)
+	return fmt.Sprint(c)
 }
 
 type c03Tree []c03File
@@ -59,28 +67,38 @@ func (f c03File) render() string {
 	for _, c := range f.FileC {
 		sb.WriteString(c + "\n")
 	}
-	sb.WriteString("groups:\n- name: g\n  rules:\n")
+	// a file under rules/relaxed/ is written the way only the relaxed parser reads: a bare list of rules
+	ind := "  "
+	if strings.HasPrefix(f.Path, "rules/relaxed/") {
+		ind = ""
+	} else {
+		sb.WriteString("groups:\n- name: g\n  rules:\n")
+	}
 	for _, r := range f.Rules {
 		for i := 0; i < r.Blank; i++ {
 			sb.WriteString("\n")
 		}
 		if r.Note != "" {
-			sb.WriteString("  # " + r.Note + "\n")
+			sb.WriteString(ind + "# " + r.Note + "\n")
 		}
 		for _, c := range r.Comments {
-			sb.WriteString("  " + c + "\n")
+			sb.WriteString(ind + c + "\n")
 		}
 		if r.Alert {
-			fmt.Fprintf(&sb, "  - alert: %s\n    expr: %s\n", r.Name, r.Expr)
+			fmt.Fprintf(&sb, "%s- alert: %s\n%s  expr: %s\n", ind, r.Name, ind, r.Expr)
 			if r.For != "" {
-				fmt.Fprintf(&sb, "    for: %s\n", r.For)
+				fmt.Fprintf(&sb, "%s  for: %s\n", ind, r.For)
 			}
 		} else {
-			fmt.Fprintf(&sb, "  - record: %s\n    expr: %s\n", r.Name, r.Expr)
+			fmt.Fprintf(&sb, "%s- record: %s\n%s  expr: %s\n", ind, r.Name, ind, r.Expr)
 		}
 		if r.Label != "" {
-			fmt.Fprintf(&sb, "    labels:\n      team: %s\n", r.Label)
+			fmt.Fprintf(&sb, "%s  labels:\n%s    team: %s\n", ind, ind, r.Label)
 		}
+	}
+	if f.Broken && ind != "" {
+		// a rule that does not parse (no expr), never edited: outside the reference, it may be listed at most once
+		sb.WriteString("  - alert: NoExprZZ\n    for: 5m\n")
 	}
 	return sb.String()
 }
@@ -149,6 +167,9 @@ func c03Op(r *hx.Run, t *c03Tree, nextID *int, base c03Tree) string {
 	switch rr.Intn(14) {
 	case 0: // add file
 		f := c03File{ID: *nextID, Path: fmt.Sprintf("rules/f%d.yml", *nextID)}
+		if rr.Intn(4) == 0 {
+			f.Path = fmt.Sprintf("rules/relaxed/f%d.yml", *nextID)
+		}
 		*nextID++
 		u := map[string]bool{}
 		for i, n := 0, 1+rr.Intn(3); i < n; i++ {
@@ -166,6 +187,9 @@ func c03Op(r *hx.Run, t *c03Tree, nextID *int, base c03Tree) string {
 		if i := pickFile(); i >= 0 {
 			old := tree[i].Path
 			tree[i].Path = fmt.Sprintf("rules/moved%d_%d.yml", tree[i].ID, rr.Intn(1000))
+			if rr.Intn(5) == 0 && !tree[i].Broken {
+				tree[i].Path = fmt.Sprintf("rules/relaxed/moved%d_%d.yml", tree[i].ID, rr.Intn(1000))
+			}
 			return "rename " + old + " -> " + tree[i].Path
 		}
 	case 3: // add rule (sometimes an exact copy of a rule the file already has)
@@ -208,10 +232,18 @@ func c03Op(r *hx.Run, t *c03Tree, nextID *int, base c03Tree) string {
 	case 7: // control comment on a rule (changes parsed content)
 		if i := pickFile(); i >= 0 && len(tree[i].Rules) > 0 {
 			k := rr.Intn(len(tree[i].Rules))
-			if len(tree[i].Rules[k].Comments) > 0 && rr.Intn(2) == 0 {
+			if c := tree[i].Rules[k].Comments; len(c) > 0 && rr.Intn(2) == 0 {
+				if strings.HasPrefix(c[0], "# pint disable ") {
+					tree[i].Rules[k].Comments = []string{"# pint rule/owner " + strings.TrimPrefix(c[0], "# pint disable ")}
+				} else {
+					tree[i].Rules[k].Comments = []string{"# pint disable " + strings.TrimPrefix(c[0], "# pint rule/owner ")}
+				}
+				return "switch the type of the control comment on " + tree[i].Rules[k].Name + " in " + tree[i].Path
+			} else if len(c) > 0 && rr.Intn(2) == 0 {
 				tree[i].Rules[k].Comments = nil
 			} else {
-				tree[i].Rules[k].Comments = []string{"# pint disable " + hx.Pick(rr, []string{"promql/rate", "promql/series", "alerts/for"})}
+				// the same value under another comment type is another comment
+				tree[i].Rules[k].Comments = []string{hx.Pick(rr, []string{"# pint disable ", "# pint disable ", "# pint rule/owner "}) + hx.Pick(rr, []string{"promql/rate", "promql/series", "alerts/for"})}
 			}
 			return "control comment on " + tree[i].Rules[k].Name + " in " + tree[i].Path
 		}
@@ -277,9 +309,18 @@ func c03Op(r *hx.Run, t *c03Tree, nextID *int, base c03Tree) string {
 		}
 	case 10: // file-level disable comment (changes every rule's effective content)
 		if i := pickFile(); i >= 0 {
-			if len(tree[i].FileC) > 0 {
+			switch {
+			case len(tree[i].FileC) >= 2 && rr.Intn(2) == 0:
+				// the same set of file comments in another order: not a change of any rule
+				tree[i].FileC[0], tree[i].FileC[1] = tree[i].FileC[1], tree[i].FileC[0]
+				return "swap file comments in " + tree[i].Path
+			case len(tree[i].FileC) == 1 && rr.Intn(2) == 0:
+				tree[i].FileC = append(tree[i].FileC, "# pint file/disable promql/series")
+			case len(tree[i].FileC) > 0:
 				tree[i].FileC = nil
-			} else {
+			case rr.Intn(2) == 0:
+				tree[i].FileC = []string{"# pint file/disable promql/fragile", "# pint file/disable promql/rate"}
+			default:
 				tree[i].FileC = []string{"# pint file/disable promql/fragile"}
 			}
 			return "file comment in " + tree[i].Path
@@ -397,7 +438,7 @@ func c03Reference(base, head c03Tree, origin map[string]string) []c03Expect {
 				// changed in some way (pint matches positionally: added/removed or modified)
 				avail, rank := 0, 0
 				for i := range bf.Rules {
-					if existed && o != "" && bf.Rules[i].sameContent(ru) && fmt.Sprint(bf.FileC) == fmt.Sprint(f.FileC) {
+					if existed && o != "" && bf.Rules[i].sameContent(ru) && bf.fileCKey() == f.fileCKey() {
 						avail++
 					}
 				}
@@ -417,7 +458,7 @@ func c03Reference(base, head c03Tree, origin map[string]string) []c03Expect {
 				out = append(out, e)
 				continue
 			}
-			same := prev != nil && prev.sameContent(ru) && fmt.Sprint(bf.FileC) == fmt.Sprint(f.FileC)
+			same := prev != nil && prev.sameContent(ru) && bf.fileCKey() == f.fileCKey()
 			switch {
 			case prev == nil:
 				e.State = "added"
@@ -439,6 +480,7 @@ func c03Reference(base, head c03Tree, origin map[string]string) []c03Expect {
 const c03Config = `
 parser {
   include = ["rules/.*"]
+  relaxed = ["rules/relaxed/.*"]
 }
 rule {
   match { state = ["added"] }
@@ -480,6 +522,7 @@ func c03Write(dir string, t c03Tree) {
 	_ = os.RemoveAll(filepath.Join(dir, "rules"))
 	_ = os.MkdirAll(filepath.Join(dir, "rules"), 0o755)
 	for _, f := range t {
+		_ = os.MkdirAll(filepath.Dir(filepath.Join(dir, f.Path)), 0o755)
 		_ = os.WriteFile(filepath.Join(dir, f.Path), []byte(f.render()), 0o644)
 	}
 }
@@ -490,7 +533,7 @@ func c03SnapJSON(t c03Tree) []any {
 		rs := []any{}
 		for _, ru := range f.Rules {
 			rs = append(rs, map[string]any{"a": ru.Alert, "n": ru.Name,
-				"c": c03Hash(ru.Expr, ru.For, ru.Label, fmt.Sprint(ru.Comments)), "d": c03Hash(fmt.Sprint(f.FileC), fmt.Sprint(ru.Comments))})
+				"c": c03Hash(ru.Expr, ru.For, ru.Label, fmt.Sprint(ru.Comments)), "d": c03Hash(f.fileCKey(), fmt.Sprint(ru.Comments))})
 		}
 		out = append(out, map[string]any{"p": f.Path, "r": rs})
 	}
@@ -600,7 +643,23 @@ func c03Eval(r *hx.Run, cs c03Case) {
 	r.Op("c03wf\t"+string(wj), "true "+strings.Join(lin, ";"))
 
 	// (2) end to end: pint ci with one marker block per state
-	res := hx.RunCmd(dir, 90*time.Second, []string{"GIT_CONFIG_GLOBAL=/dev/null"}, hx.PintBin(), "--offline", "-l", "error", "--no-color", "--show-duplicates", "ci", "--base-branch", "main", "--json", "out.json")
+	res := hx.RunCmd(dir, 90*time.Second, []string{"GIT_CONFIG_GLOBAL=/dev/null"}, hx.PintBin(), "--offline", "-l", "debug", "--no-color", "--show-duplicates", "ci", "--base-branch", "main", "--json", "out.json")
+	// a rule is one entry, whether it parses or not
+	invalidSeen := map[string]int{}
+	for _, l := range strings.Split(res.Stderr, "\n") {
+		if i := strings.Index(l, `msg="Found invalid rule"`); i >= 0 {
+			k := l[i:]
+			if j := strings.Index(k, " state="); j >= 0 {
+				k = k[:j]
+			}
+			invalidSeen[k]++
+			if invalidSeen[k] > 1 {
+				r.Violate(hx.Violation{Class: "invalid-rule-listed-twice", Input: cs, Observed: l,
+					Expected: "a rule that does not parse is one entry of the change list"})
+				return
+			}
+		}
+	}
 	var reports []c05JSON
 	b, rerr := os.ReadFile(filepath.Join(dir, "out.json"))
 	if rerr != nil {
@@ -621,7 +680,23 @@ func c03Eval(r *hx.Run, cs c03Case) {
 		}
 	}
 	got := map[string]map[string]bool{} // path|kind|name -> set of markers
+	parseSeen := map[string]int{}
 	for _, rep := range reports {
+		if rep.Reporter == "yaml/parse" {
+			k := fmt.Sprintf("%s:%v", rep.Path, rep.Lines)
+			parseSeen[k]++
+			if hf, known := head.byPath(rep.Path); known && !(hf.Broken && strings.Contains(rep.Problem+rep.Details, "expr")) {
+				// every generated file parses the way its path asks for, apart from the one marked rule
+				r.Violate(hx.Violation{Class: "parse-error-on-valid-file", Input: cs, Observed: rep,
+					Expected: "no yaml/parse problem: files under rules/relaxed/ are read by the relaxed parser on both sides of the change"})
+				return
+			}
+			if parseSeen[k] > 1 {
+				r.Violate(hx.Violation{Class: "invalid-rule-listed-twice", Input: cs, Observed: rep,
+					Expected: "a rule that does not parse is one entry: one yaml/parse problem for it"})
+				return
+			}
+		}
 		if rep.Reporter != "rule/name" {
 			continue
 		}
@@ -726,11 +801,21 @@ func runC03(r *hx.Run, replay string) {
 		nextID := 0
 		var base c03Tree
 		for f, n := 0, 1+rr.Intn(3); f < n; f++ {
-			file := c03File{ID: nextID, Path: fmt.Sprintf("rules/f%d.yml", nextID)}
+			file := c03File{ID: nextID, Path: fmt.Sprintf("rules/f%d.yml", nextID), Broken: rr.Intn(5) == 0}
+			switch rr.Intn(6) {
+			case 0:
+				file.FileC = []string{"# pint file/disable promql/fragile"}
+			case 1:
+				file.FileC = []string{"# pint file/disable promql/fragile", "# pint file/disable promql/rate"}
+			}
 			nextID++
 			u := map[string]bool{}
 			for k, m := 0, 1+rr.Intn(4); k < m; k++ {
-				file.Rules = append(file.Rules, c03RandRule(r, u))
+				ru := c03RandRule(r, u)
+				if rr.Intn(5) == 0 {
+					ru.Comments = []string{hx.Pick(rr, []string{"# pint disable ", "# pint rule/owner "}) + hx.Pick(rr, []string{"promql/rate", "promql/series"})}
+				}
+				file.Rules = append(file.Rules, ru)
 			}
 			if rr.Intn(6) == 0 {
 				// a fully identical copy of a rule in the base file
@@ -801,6 +886,30 @@ func runC03(r *hx.Run, replay string) {
 				cur[a].Path = "rules/step2.yml"
 				commit("rename rules/step1.yml -> rules/step2.yml")
 			}
+		}
+		if len(snapshots) == 0 && rr.Intn(4) == 0 {
+			// scripted comment-level edits: what is and what is not a change of the rule's control comments
+			a := rr.Intn(len(base))
+			switch rr.Intn(2) {
+			case 0:
+				base[a].FileC = []string{"# pint file/disable promql/fragile", "# pint file/disable promql/rate"}
+				cs.Base = base
+				cur = base.clone()
+				cur[a].FileC[0], cur[a].FileC[1] = cur[a].FileC[1], cur[a].FileC[0]
+				r.Count("scripted:swap-file-comments")
+				cs.Ops = append(cs.Ops, "swap file comments in "+cur[a].Path)
+			default:
+				k := rr.Intn(len(base[a].Rules))
+				v := hx.Pick(rr, []string{"promql/rate", "promql/series", "alerts/for"})
+				base[a].Rules[k].Comments = []string{"# pint disable " + v}
+				cs.Base = base
+				cur = base.clone()
+				cur[a].Rules[k].Comments = []string{"# pint rule/owner " + v}
+				r.Count("scripted:switch-comment-type")
+				cs.Ops = append(cs.Ops, "switch the type of the control comment on "+cur[a].Rules[k].Name)
+			}
+			snapshots = append(snapshots, cur.clone())
+			cs.Commits = append(cs.Commits, cur.clone())
 		}
 		for c, n := 0, rr.Intn(4); c < n || len(cs.Commits) == 0; c++ {
 			var descs []string
